@@ -37,13 +37,13 @@ func waitFor(wq *waiter.Queue, mask waiter.EventMask, cond func() bool) {
 	e, ch := waiter.NewChannelEntry(nil)
 	wq.EventRegister(&e, mask)
 	defer wq.EventUnregister(&e)
-	deadline := time.After(20 * time.Second)
+	deadline := time.After(180 * time.Second)
 	for !cond() {
 		select {
 		case <-ch:
 		case <-time.After(5 * time.Millisecond):
 		case <-deadline:
-			panic("verif: free-running TCP transfer made no progress for 20 s")
+			panic("verif: free-running TCP transfer made no progress for 180 s")
 		}
 	}
 }
